@@ -122,6 +122,11 @@ def eval_tree_pass():
                 rel = f"{canon.EXT[lang]}_as_{canon.EXT[other]}/{name.replace('-', '_')}.{canon.EXT[other]}"
                 files[rel] = text
                 truth[rel] = (other, text, oracle.expected(lang, text, funcs, canon.NESTS[lang]) if other == lang else None)
+            # the same program indented with tabs, in its own language: what is read from disk is what is measured (columns included)
+            ttext, tfuncs = canon.render(dict(sk[name], unit="\t"))
+            rel = f"tabs/{name.replace('-', '_')}.{canon.EXT[lang]}"
+            files[rel] = ttext
+            truth[rel] = (lang, ttext, oracle.expected(lang, ttext, tfuncs, canon.NESTS[lang]))
     out = []
     with harness.temp_tree(files) as root:
         harness.reset_globals()
